@@ -131,6 +131,7 @@ func buildProperties() []Property {
 				{"R-ARGS-CONSUMED", 2, ruleArgsConsumed},
 				{"R-SUBST-LAST", 1, ruleSubstLast},
 				{"R-STRING-SOURCES", 1, ruleStringSources},
+				{"R-PLACEHOLDER-UNQUOTED", 1, rulePlaceholderUnquoted},
 			},
 		},
 		{
@@ -143,6 +144,7 @@ func buildProperties() []Property {
 				{"R-ASSERT-ATOMIC", 1, ruleAssertAtomic},
 				{"R-ABSENT-NOT-STATIC", 3, ruleAbsentNotStatic},
 				{"R-RETRACT-REMOVES", 1, ruleRetractRemoves},
+				{"R-ABOLISH-CLEARS", 1, ruleAbolishClears},
 				{"R-SNAPSHOT", 2, func(c *Ctx, r *Report) { ruleSnapshot(c, r); ruleSnapshotPointers(c, r) }},
 				{"R-SLICE-OWNER", 4, ruleSliceOwner},
 				{"R-DB-WRITERS", 6, ruleStateWriters("R-DB-WRITERS", [][2]string{{"VM", "procedures"}, {"userDefined", "clauses"}},
